@@ -14,6 +14,7 @@ import (
 	"fmt"
 	"io"
 	"math/rand"
+	"net/http"
 	"sort"
 	"strings"
 
@@ -688,6 +689,63 @@ func runC13(seed int64, tier string, sc *Script) map[string]any {
 		evals++
 		reg.Close()
 	}
+	// a manifest fetched by digest from a registry that sends no Docker-Content-Digest header:
+	// the body is what names the content, and a body that is not the requested one is refused
+	// (a body that is something else under a header that agrees with the request is outside the
+	// property - the reader handed out is for a verifying caller; observed: delivered as is)
+	for _, variant := range []string{"right-body", "other-body", "right-body-head"} {
+		sc.Case("fetchref-by-digest-without-header")
+		sc.NonTrivial()
+		right := []byte(`{"schemaVersion":2,"mediaType":"application/vnd.oci.image.manifest.v1+json","config":{"mediaType":"application/vnd.oci.empty.v1+json","digest":"sha256:44136fa355b3678a1146ad16f7e8649e94fb4fc21fe77e8310c060f61caaff8a","size":2},"layers":[],"annotations":{"v":"right"}}`)
+		other := bytes.Replace(right, []byte("right"), []byte("wrong"), 1)
+		want := digest.FromBytes(right)
+		repo, _ := remote.NewRepository("registry.invalid/a/b")
+		repo.Client = &http.Client{Transport: rtFunc(func(req *http.Request) (*http.Response, error) {
+			body := right
+			if strings.HasPrefix(variant, "other-body") {
+				body = other
+			}
+			h := http.Header{}
+			h.Set("Content-Type", ocispec.MediaTypeImageManifest)
+			if variant == "other-body-with-matching-header" {
+				h.Set("Docker-Content-Digest", want.String()) // the header agrees with the request; the body does not
+			}
+			resp := &http.Response{StatusCode: 200, Status: "200 OK", Header: h, ContentLength: int64(len(body)), Request: req}
+			if req.Method == http.MethodHead {
+				resp.Body = io.NopCloser(bytes.NewReader(nil))
+			} else {
+				resp.Body = io.NopCloser(bytes.NewReader(body))
+			}
+			return resp, nil
+		})}
+		for _, form := range []string{"digest", "tag@digest", "qualified"} {
+			ref := want.String()
+			switch form {
+			case "tag@digest":
+				ref = "v1@" + want.String()
+			case "qualified":
+				ref = "registry.invalid/a/b@" + want.String()
+			}
+			d, rc, err := repo.FetchReference(ctx, ref)
+			ans := "err"
+			if err == nil {
+				b, rerr := io.ReadAll(rc)
+				rc.Close()
+				switch {
+				case rerr != nil:
+					ans = "err-on-read"
+				case d.Digest != want:
+					ans = "descriptor-of-other-content"
+				case !bytes.Equal(b, right):
+					ans = "other-bytes-delivered"
+				default:
+					ans = "ok"
+				}
+			}
+			sc.Op(ans, "rm fetchrefnohdr variant=%s form=%s", variant, form)
+			evals++
+		}
+	}
 	// tags at the length limit: 128 characters are a tag, 129 are not - the call is refused
 	// before anything is sent, in every operation that takes a reference
 	for _, n := range []int{127, 128, 129, 130, 200} {
@@ -853,3 +911,8 @@ func resOK(c *c13Case, err error) string {
 	}
 	return "ok"
 }
+
+// rtFunc adapts a function to http.RoundTripper.
+type rtFunc func(*http.Request) (*http.Response, error)
+
+func (f rtFunc) RoundTrip(r *http.Request) (*http.Response, error) { return f(r) }
